@@ -171,6 +171,7 @@ def gen_program(rng, exhaustive_shape=None):
         return ", ".join(parts)
 
     ops = []
+    helpers = set()
     if exhaustive_shape is not None:
         L.append("ON ERROR GOTO Handler")
         name = names[0]
@@ -204,6 +205,9 @@ def gen_program(rng, exhaustive_shape=None):
                 ops.append(("read", name, ix))
             elif x < 0.72:
                 ops.append(("bounds", name))
+            elif x < 0.735 and et in ("%", "&", "!", "#", "$"):
+                # the whole array goes to a procedure as a parameter: elements are written and read there
+                ops.append((rng.choice(["write_param", "read_param", "bounds_param"]), name, ix, rand_value(rng, et)))
             elif x < 0.76:
                 ops.append(("fixed_to_fixed", name, ix))
             elif x < 0.8:
@@ -232,7 +236,7 @@ def gen_program(rng, exhaustive_shape=None):
         if m.error:
             break
         k = op[0]
-        if k in ("write", "write_field", "read", "fixed_byref", "fixed_to_fixed"):
+        if k in ("write", "write_field", "read", "fixed_byref", "fixed_to_fixed", "write_param", "read_param", "bounds_param"):
             cur = m.arrays[op[1]][1]
             if not all(lb <= i <= ub for i, (lb, ub) in zip(op[2], cur)):
                 op = op[:2] + (tuple(rng.randrange(lb, ub + 1) for lb, ub in cur),) + op[3:]
@@ -264,6 +268,23 @@ def gen_program(rng, exhaustive_shape=None):
                     emit_print("%s(%s).%s" % (name, idx_text(ix), f), rec[leaf], ftype[f])
                 else:
                     emit_print("%s(%s)" % (name, idx_text(ix)), store[ix], et)
+            elif k in ("write_param", "read_param", "bounds_param"):
+                _, name, ix, val = op
+                et, dims, store = m.arrays[name]
+                base = name.rstrip("%&!#$")
+                helpers.add((base, et, len(dims)))
+                args = ", ".join(str(i) for i in ix)
+                if k == "write_param":
+                    L.append("Put%s %s(), %s, %s" % (base, name, args, lit(val)))
+                    store[ix] = conv(et, val)
+                elif k == "read_param":
+                    emit_print("Get%s%s(%s(), %s)" % (base, et, name, args), store[ix], et)
+                else:
+                    L.append("Bnd%s %s()" % (base, name))
+                    txt = ""
+                    for lb, ub in dims:
+                        txt += ("%s%d " % ("-" if lb < 0 else " ", abs(lb))) + ("%s%d " % ("-" if ub < 0 else " ", abs(ub)))
+                    segs.append(("s", txt + "\r\n"))
             elif k == "bounds":
                 _, name = op
                 et, dims, store = m.arrays[name]
@@ -411,6 +432,17 @@ def gen_program(rng, exhaustive_shape=None):
         L.append("Handler:")
         L.append("IF ERR = 9 THEN ERRS% = ERRS% + 1 ELSE OTHER% = OTHER% + 1")
         L.append("RESUME NEXT")
+    for base, et, nd in sorted(helpers):
+        ixs = ", ".join("I%d%%" % d for d in range(nd))
+        L.append("SUB Put%s (X%s(), %s, V%s)" % (base, et, ixs, et))
+        L.append("  X%s(%s) = V%s" % (et, ixs, et))
+        L.append("END SUB")
+        L.append("FUNCTION Get%s%s (X%s(), %s)" % (base, et, et, ixs))
+        L.append("  Get%s%s = X%s(%s)" % (base, et, et, ixs))
+        L.append("END FUNCTION")
+        L.append("SUB Bnd%s (X%s())" % (base, et))
+        L.append("  PRINT " + "; ".join("LBOUND(X%s, %d); UBOUND(X%s, %d)" % (et, d + 1, et, d + 1) for d in range(nd)))
+        L.append("END SUB")
     L.append("SUB SetStr (X$)")
     L.append('  X$ = "longer text"')
     L.append("END SUB")
